@@ -46,6 +46,14 @@ CLAIMED["C06"] = dict(
     technique="Coq proof (association-list lemmas, vm_compute over the generated tables, induction on key lists) + extracted-model correspondence",
 )
 
+CLAIMED["C12"] = dict(
+    category="proof",
+    text="Theorems in coq/Props/Properties_C12.v about Gallina models of jwk_str/jose_jwk_thp/_thp_buf/jose_jwk_eql over the regenerated type table: the digest input holds exactly kty and the RFC 7638 required members (the generated lists are proved equal to RFC 7638's), ignores all other members, is the same for a key and its public half, string and buffer forms agree and the size query is the digest length; equality is exactly 'type known, kty and required members present and json_equal', is reflexive/symmetric/transitive (json_equal itself is proved an equivalence on duplicate-free values by induction on JSON trees), and a key without thumbprint equals nothing. Tie: extracted model (with Gallina SHA-1/2) vs the real functions on generated keys incl. non-ASCII/escaped/non-string members, all hash names, buffer sizes 0..65, pairs and triples; Python hashlib oracle.",
+    design_ref="DESIGN.md section 3 C12",
+    note="Coq kernel; no axioms; NOT proved: injectivity of the JSON dump and collision-freeness of SHA (so 'equal iff same thumbprint' is shown as 'decided by the same members'); jose/openssl.h conversions are checked on the implementation only.",
+    technique="Coq proof (induction on JSON trees, table lemmas by vm_compute) + extracted-model correspondence with an independent hashlib oracle",
+)
+
 NOT_YET = {}
 
 def main():
